@@ -805,6 +805,94 @@ theorem defineEnum_eq_of_find (st : NsState) (nsName : List Char) (name : Seg) (
   unfold defineEnum
   simp only [h]
 
+/-! ### 5b. several enum declarations -/
+
+theorem mem_prefixes_isPrefix : ∀ (path a : List Seg), a ∈ prefixes path → a <+: path := by
+  intro path
+  induction path with
+  | nil => intro a h; simp [prefixes] at h
+  | cons x xs ih =>
+    intro a h
+    simp only [prefixes, List.mem_cons, List.mem_map] at h
+    rcases h with rfl | ⟨b, hb, rfl⟩
+    · exact ⟨xs, rfl⟩
+    · obtain ⟨t, ht⟩ := ih b hb
+      exact ⟨t, by simp [ht]⟩
+
+theorem defineEnum_nss_mem (st : NsState) (ns : List Char) (name : Seg) (vs : List Seg) (a : List Seg) :
+    a ∈ (defineEnum st ns name vs).nss ↔ a ∈ st.nss ∨ a ∈ prefixes (splitDots ns) := by
+  rw [defineEnum_nss]; simp only [defineNs, mem_foldl_addNew]
+
+theorem defineEnum_find_mono (st : NsState) (ns : List Char) (name : Seg) (vs : List Seg) (p : List Seg) (n : Seg)
+    (e : EnumInfo) (h : st.findEnum p n = some e) : (defineEnum st ns name vs).findEnum p n = some e := by
+  unfold defineEnum
+  simp only
+  cases hf : (defineNs st (splitDots ns)).findEnum (splitDots ns) name with
+  | some e' => exact h
+  | none =>
+    show List.find? _ (st.enums ++ _) = some e
+    unfold NsState.findEnum at h
+    rw [List.find?_append, h]; rfl
+
+theorem defineEnum_find_other (st : NsState) (ns : List Char) (name : Seg) (vs : List Seg) (p : List Seg) (n : Seg)
+    (h : st.findEnum p n = none) (hne : ¬ (splitDots ns = p ∧ name = n)) :
+    (defineEnum st ns name vs).findEnum p n = none := by
+  unfold defineEnum
+  simp only
+  cases hf : (defineNs st (splitDots ns)).findEnum (splitDots ns) name with
+  | some e' => exact h
+  | none =>
+    show List.find? _ (st.enums ++ _) = none
+    unfold NsState.findEnum at h
+    rw [List.find?_append, h]
+    simp [hne]
+
+theorem defineAll_nss_mem : ∀ (defs : List EnumDecl) (st : NsState) (a : List Seg),
+    a ∈ (defineAll st defs).nss ↔ a ∈ st.nss ∨ ∃ d ∈ defs, a ∈ prefixes (splitDots d.ns) := by
+  intro defs
+  induction defs with
+  | nil => intro st a; simp [defineAll]
+  | cons d rest ih =>
+    intro st a
+    simp only [defineAll, ih, defineEnum_nss_mem, List.mem_cons, exists_eq_or_imp]
+    constructor
+    · rintro ((h | h) | h); exact Or.inl h; exact Or.inr (Or.inl h); exact Or.inr (Or.inr h)
+    · rintro (h | h | h); exact Or.inl (Or.inl h); exact Or.inl (Or.inr h); exact Or.inr h
+
+theorem defineAll_find_mono : ∀ (defs : List EnumDecl) (st : NsState) (p : List Seg) (n : Seg) (e : EnumInfo),
+    st.findEnum p n = some e → (defineAll st defs).findEnum p n = some e := by
+  intro defs
+  induction defs with
+  | nil => intro st p n e h; exact h
+  | cons d rest ih => intro st p n e h; exact ih _ p n e (defineEnum_find_mono st d.ns d.name d.values p n e h)
+
+theorem defineAll_find_none : ∀ (defs : List EnumDecl) (st : NsState) (p : List Seg) (n : Seg),
+    st.findEnum p n = none → (∀ d ∈ defs, ¬ (splitDots d.ns = p ∧ d.name = n)) →
+    (defineAll st defs).findEnum p n = none := by
+  intro defs
+  induction defs with
+  | nil => intro st p n h _; exact h
+  | cons d rest ih =>
+    intro st p n h hall
+    exact ih _ p n (defineEnum_find_other st d.ns d.name d.values p n h (hall d (by simp)))
+      (fun d' hd' => hall d' (by simp [hd']))
+
+/-- resolution of `p.name.v` in any state that has the namespaces of `p`, the enum, and no
+namespace shadowing it -/
+theorem resolve_enum_value (st : NsState) (p : List Seg) (name v : Seg) (e : EnumInfo)
+    (hne : p ≠ []) (hpre : ∀ k, 0 < k → k ≤ p.length → p.take k ∈ st.nss)
+    (hshadow : p ++ [name] ∉ st.nss) (hfind : st.findEnum p name = some e) (hv : v ∈ e.values) :
+    resolvePath st (p ++ [name, v]) = .ok (.value (valueAsCpp e v) e.fullName) := by
+  cases p with
+  | nil => exact absurd rfl hne
+  | cons x rest =>
+    have hx : [x] ∈ st.nss := by simpa using hpre 1 (by omega) (by simp)
+    simp only [List.cons_append, resolvePath, hx, if_true]
+    rw [resolveFrom_walk _ rest [x] [name, v]
+      (by intro k h1 h2; have := hpre (k + 1) (by omega) (by simpa using h2); simpa using this)]
+    simp only [List.cons_append, List.nil_append] at hshadow hfind ⊢
+    simp [resolveFrom, resolveStep, hshadow, hfind, hv]
+
 /-! ### 6. columns -/
 
 theorem finishCol_plain_fields (s : ChainSt) (out : ColOut) (h : finishCol s .plain = .ok out) :
